@@ -14,11 +14,13 @@ ASSUMPTIONS = [
   "an 'equal copy' of an id is uuid.UUID(str(id)); an equal copy of a name comes from Event.loads(Event.dumps(e)) - equal, not the same object; "
   "signal names are longer than one character (CPython shares one-character strings)",
 ]
-OUTSIDE = ["more than three tracked sources"]
+OUTSIDE = ["more than three tracked sources (E1), more than two timer threads with 1-2 firings and schedules longer than K (E2)"]
 EXPLANATION = ("E1: bounded symbolic execution (CrossHair/z3) of cancel_event / cancel_events on an active object tracking 1-3 timed sources with "
                "symbolic signal names, symbolic choice of the source to cancel, by id or by name, with the identical object or an equal copy. "
                "Oracle: exactly the matching sources have their run flag cleared and leave the tracked list; all others keep their flag and stay tracked. "
-               "E2 (when built): timer body x cancel_event under every schedule: no append by the source after the cancelling call returned.")
+               "E2: bounded model checking (QF_BV) of the translated cancel_event / cancel_events x run_event x post_event_thread_runner under every "
+               "schedule: after the cancelling call has returned exactly the matching sources have their flag down and are untracked, no timer posts after a "
+               "fresh look at its flag, nobody crashes; the check-then-post window is the recorded known finding (replayed on the real code).")
 RULE = "one case per (number of sources, their names, which one, by id or name, same object or equal copy); non-trivial = at least two sources"
 LIM = {"quick": dict(NS=3), "thorough": dict(NS=4)}
 NAMES = ["W_ALPHA", "W_BETA"]
@@ -109,3 +111,36 @@ def set_tier(tier):
 
 def jobs(tier):
   return jobs_all(globals(), tier)
+
+
+# ---- E2 part: 'for good' under every interleaving -----------------------------------------------------------------------
+def e2_scenarios(tier):
+  a = dict(action="cancel_event", sources=2, times=1, other_source=True)
+  b = dict(action="cancel_events", sources=2, times=1, other_source=False)
+  c = dict(action="cancel_events", sources=2, times=1, other_source=True)
+  d = dict(action="cancel_event", sources=1, times=2)
+  if tier == "quick":
+    return [(a, 24), (b, 24)]
+  return [(a, 32), (b, 32), (c, 32), (d, 34)]
+
+
+def e2_specs(tier):
+  out = []
+  to = 900 if tier == "quick" else 3000
+  for (kw, K) in e2_scenarios(tier):
+    out.append(dict(scenario="stopping", kwargs=kw, kind="reach", K=K, pred="returned", timeout=to))
+    out.append(dict(scenario="stopping", kwargs=kw, kind="safety", K=K, pred="cancel_bad", timeout=to, replay="stopping_replay"))
+    out.append(dict(scenario="stopping", kwargs=kw, kind="safety", K=K, pred="late_stale", timeout=to, replay="stopping_replay"))
+    out.append(dict(scenario="stopping", kwargs=kw, kind="deadlock", K=K, pred="caller_stuck_not_capacity", timeout=to, replay="stopping_replay"))
+  return out
+
+
+def solver_part(tier, known):
+  from vf.e2 import propbase, harness
+  from vf.props import c12
+  FUNCTIONS.extend(x for x in propbase.functions_of("stopping", e2_scenarios(tier)[0][0]) if x not in FUNCTIONS)
+  n = 8 if tier == "quick" else 30
+  out = propbase.run(e2_specs(tier), known, c12.signature, jobs=8,
+                     differential=lambda: harness.stopping_differential(dict(action="cancel_events", sources=2, times=1, other_source=True), n, seed=17))
+  out["coverage"]["e2_bounds"] = [{"kwargs": k, "K": K} for k, K in e2_scenarios(tier)]
+  return out
